@@ -175,7 +175,7 @@ static void check_pair(const std::string &a, const std::string &b, int m)
 
 // ---------------------------------------------------------------- suites
 static const char PALPHA[4] = {'a', 'b', '/', '.'};
-static int pair_len() { return vf::thorough() ? 5 : 4; }
+static int pair_len() { return reduced() ? 3 : vf::thorough() ? 5 : 4; }
 static uint64_t pair_count() { return nstrings(pair_len(), 4); }
 static void pair_run(uint64_t idx)
 {
@@ -194,7 +194,7 @@ VF_SUITE(path_pairs, pair_count, pair_run)
 
 // the same with the |0x80 twins of '/' and '.' (and 0xFF) next to the real ones
 static const char PHI[6] = {'a', '/', '.', (char)0xAF, (char)0xAE, (char)0xFF};
-static int pairhi_len() { return vf::thorough() ? 4 : 3; }
+static int pairhi_len() { return reduced() ? 2 : vf::thorough() ? 4 : 3; }
 static uint64_t pairhi_count() { return nstrings(pairhi_len(), 6); }
 static void pairhi_run(uint64_t idx)
 {
@@ -238,7 +238,7 @@ static std::string random_path(vf::Rng &r, size_t maxcomp)
     }
     return p;
 }
-static uint64_t prand_count() { return vf::thorough() ? 300000 : 6000; }
+static uint64_t prand_count() { return scaled(vf::thorough() ? 300000 : 6000); }
 static void prand_run(uint64_t idx)
 {
     vf::Rng r(vf::seed(), 0xC19A, idx);
@@ -268,6 +268,52 @@ static void prand_run(uint64_t idx)
 }
 VF_SUITE(path_random, prand_count, prand_run)
 
+// long components (254..5000 characters): next / iterate / compare_node / remove_prefix must not cut a node
+static uint64_t plong_count() { return 6 * 6; }
+static void plong_run(uint64_t idx)
+{
+    size_t L = LONG_LENS[idx % 6];
+    std::string c = long_token(L, (unsigned)idx), d = long_token(L, (unsigned)idx + 5), p;
+    switch ((idx / 6) % 6)
+    {
+    case 0:
+        p = c;
+        break;
+    case 1:
+        p = "/" + c;
+        break;
+    case 2:
+        p = c + "/b";
+        break;
+    case 3:
+        p = "a/./" + c + "//b/" + d + "/";
+        break;
+    case 4:
+        p = "/" + c + "/" + c + "/" + d;
+        break;
+    default:
+        p = c.substr(0, 255) + "/" + c.substr(L < 255 ? L : 255) + "/" + c;
+    }
+    if (vf::verbose())
+        printf("  long path, component length %zu, %zu bytes: \"%s\"\n", L, p.size(), show(p).c_str());
+    check_single(p);
+    std::string root = p[0] == '/' ? "/" : "";
+    std::string changed = c;
+    changed[L - 1] = '#'; // differs from c in its last character only
+    const std::string prefixes[] = {p,           root + c,     root + c + "/", root + changed, root + c.substr(0, 255), root + c.substr(0, L - 1),
+                                    root + c + "x", root + "a/" + c, root + c + "/" + c,     root + c + "/" + d};
+    for (const std::string &q : prefixes)
+    {
+        check_pair(p, q, (int)(idx & 1));
+        check_pair(q, p, (int)(idx & 1));
+    }
+    check_pair(c, changed, 0);
+    check_pair(c + "/x", c, 1);
+    VF_OK("long path components (254..5000 characters) through next, iterate, compare_node, remove_prefix");
+    vf::count_case(vf::hash_bytes(p.data(), p.size()), true);
+}
+VF_SUITE(path_long, plong_count, plong_run)
+
 void c19_path_setup()
 {
     for (const char *c : {"path_next == first component (or NULL)", "path_iterate == start of the next component (or terminator)",
@@ -276,6 +322,7 @@ void c19_path_setup()
                           "path_compare_node on nodes with bytes >= 0x80: 0 iff equal, antisymmetric",
                           "path_remove_prefix removes only leading components that match the prefix",
                           "path_remove_prefix removes exactly the common leading components",
-                          "path_remove_prefix: at least one component removed"})
+                          "path_remove_prefix: at least one component removed",
+                          "long path components (254..5000 characters) through next, iterate, compare_node, remove_prefix"})
         vf::require(c);
 }
